@@ -109,7 +109,8 @@ def make_case(i, rng, tier):
         tasks.append(common.spec("m%d" % j, "Command" if m["kind"] == "command" else "Response", data[a:b], m["cc"], m["enc"], strict=True))
     tasks += common.enc_sweep_specs(rng, g, rng.choice((0, 0, 1, 2)))
     tasks, sched = common.perturb(rng, tasks, p_by=0.2)
-    return {"input": {"label": "stream:%d" % len(trees), "msgs": msgs, "later": rng.randrange(64) if rng.random() < 0.05 else None},
+    return {"input": {"label": "stream:%d" % len(trees), "msgs": msgs, "later": rng.randrange(64) if rng.random() < 0.05 else None,
+                      "threads": rng.randrange(1 << 30) if rng.random() < 0.004 else None},
             "tasks": tasks, "schedule": sched}
 
 
@@ -198,6 +199,9 @@ def check(case):
         recheck_later(res, case["input"]["later"])
     if len(_KEPT) < 4 and ts.exc_sum is None and any(m["enc"] or _cmd_enc(p) for m, p in zip(msgs, parts)):
         _KEPT.append((label, list(ts.events), msgs, ts.spec["data"]))
+    if case["input"].get("threads") is not None and len(ts.spec["data"]) < 3000:
+        specs_ = [dict(ts.spec, id="stream")] + [dict(p.spec, id="m%d" % j) for j, p in enumerate(parts)]
+        common.check_threads(res, "C09", specs_, case["input"]["threads"], concat=(0, list(range(1, len(specs_)))), label=label)
     res.nontrivial(ts.spec["data"])
     return res
 
